@@ -844,3 +844,63 @@ Proof.
   split; [vm_compute; repeat split; reflexivity|]. split; [repeat constructor|].
   vm_compute. repeat split; reflexivity.
 Qed.
+
+(* ------------------------------------------------------------------ the repaired configuration calls (pending_fixes C10_4:
+   set_alias / define_group empty the look-up caches of their chemicals object).  Model: ModelCfg.hstepc true / ModelEll.estepc true.
+   The statements refuted above for the code as found hold WITHOUT any restriction on the calls *)
+Theorem C10_cfg_fixed_lookup_pure : forall c ixs sps hist k,
+  let h := eafterc c ixs sps hist in
+  let t := tb (hcf h) in
+  snd (chem_lookup t (scc (hst h)) k) = classify_chem t k
+  /\ (forall phs, snd (mat_lookup fixed t phs (scc (hst h)) (mc_get (smc (hst h)) phs) k) = classify_mat fixed t phs k)
+  /\ (forall cas, snd (overlap fixed t (scc (hst h)) cas) = overlap_pure t cas).
+Proof. exact cfgc_lookup_pure. Qed.
+Print Assumptions C10_cfg_fixed_lookup_pure.
+
+(* the full statement ([cfg_read_history_independent_statement] over the repaired machine): reads after ANY history of look-ups,
+   writes and configuration calls (redefinitions, phase letters, IDs taken over included) depend on the current table, the data
+   and the key only *)
+Theorem C10_cfg_fixed_read_history_independent : forall c ixs sps hist i k,
+  let h := eafterc c ixs sps hist in
+  snd (estepc true fixed h (EOp (HOp (OGet i k)))) =
+  HB (match nth_error (sixs (hst h)) i with
+      | Some (IC d) => obs_of_read (read_chem (tb (hcf h)) d k)
+      | Some (IM phs rows) => obs_of_read (read_mat fixed (tb (hcf h)) (nchem (hcf h)) phs rows k)
+      | None => BErr EOther
+      end).
+Proof. intros c ixs sps hist i k h. apply read_coh. apply eafterc_coh. Qed.
+Print Assumptions C10_cfg_fixed_read_history_independent.
+
+Theorem C10_cfg_fixed_write_history_independent : forall c ixs sps hist i phs rows k dt,
+  let h := eafterc c ixs sps hist in
+  nth_error (sixs (hst h)) i = Some (IM phs rows) ->
+  snd (estepc true fixed h (ESet i k dt)) = let (r', e) := write_mat2 (hcf h) phs rows k dt in HB (BWr e r').
+Proof. intros c ixs sps hist i phs rows k dt h. apply ell_write_coh. apply eafterc_coh. Qed.
+Print Assumptions C10_cfg_fixed_write_history_independent.
+
+Theorem C10_cfg_fixed_split_history_independent : forall c ixs sps hist i k dt,
+  let h := eafterc c ixs sps hist in
+  snd (estepc true fixed h (EOp (HSGet i k))) =
+    match nth_error (hsp h) i with Some d => hobs_of_sread (split_read (tb (hcf h)) d k) | None => HSE EOther end /\
+  snd (estepc true fixed h (EOp (HSSet i k dt))) =
+    match nth_error (hsp h) i with
+    | Some d => let (d', e) := split_write (tb (hcf h)) d k dt in HSW e d'
+    | None => HSE EOther
+    end.
+Proof.
+  intros c ixs sps hist i k dt h. pose proof (eafterc_coh c ixs sps hist) as H. fold h in H.
+  split; [apply (split_read_coh h i k H)|apply (split_write_coh h i k dt H)].
+Qed.
+Print Assumptions C10_cfg_fixed_split_history_independent.
+
+(* a configuration call of the repaired code leaves no cache entry at all *)
+Theorem C10_cfg_fixed_clears : forall vr h o,
+  scc (hst (fst (hstepc true vr h (HCfg o)))) = [] /\ smc (hst (fst (hstepc true vr h (HCfg o)))) = [].
+Proof. intros vr h o. simpl. destruct (cstep (hcf h) o). simpl. auto. Qed.
+Print Assumptions C10_cfg_fixed_clears.
+
+(* the two witnesses of the old defect now read the fresh values *)
+Example C10_cfg_fixed_witnesses :
+  snd (estepc true fixed (eafterc ex_cfg4 [IC [1; 2; 4; 8]] [] (map EOp redefine_hist)) (EOp (HOp (OGet 0 (KStr "G1"))))) = HB (BVal (VNum 12)) /\
+  snd (estepc true fixed (eafterc ex_cfg4 [IM ["g"; "l"] [[1; 2; 4; 8]; [16; 32; 64; 128]]] [] (map EOp phase_alias_hist)) (EOp (HOp (OGet 0 (KStr "l"))))) = HB (BVal (VNum 17)).
+Proof. vm_compute. split; reflexivity. Qed.
